@@ -121,6 +121,13 @@ type G struct {
 	sending    bool
 	settleReq  bool
 	settleDone bool
+	tries      []*tryMark
+}
+
+type tryMark struct {
+	depth  int
+	retIdx int
+	fr     *Frame
 }
 
 type lockState struct {
@@ -178,6 +185,7 @@ type Path struct {
 	sample         *PathSummary
 	constrained    map[*Term]bool
 	redirectsUsed  map[string]int
+	tried          []string
 	pendingAsserts []pendingAssert
 	known          map[*Term]bool
 	visited        map[*Term]bool
@@ -587,7 +595,12 @@ func (p *Path) runG(g *G, stopDepth int) (blocked bool, progressed bool) {
 			p.lastPos = pos
 		}
 		p.lastFn = fr.fn
-		st := p.exec(g, fr, in)
+		var st int
+		if len(g.tries) > 0 {
+			st = p.execTry(g, fr, in)
+		} else {
+			st = p.exec(g, fr, in)
+		}
 		switch st {
 		case stNext:
 			fr.pc++
@@ -599,6 +612,29 @@ func (p *Path) runG(g *G, stopDepth int) (blocked bool, progressed bool) {
 		}
 	}
 	return false, progressed
+}
+
+// execTry: exec inside a zzTry region: a panic / fatal exit of the code under test
+// abandons the frames down to the zzTry call (no deferred calls run) and makes
+// zzTry return true.
+func (p *Path) execTry(g *G, fr *Frame, in ssa.Instruction) (st int) {
+	defer func() {
+		if r := recover(); r != nil {
+			pe, ok := r.(pathEnd)
+			if !ok || (pe.kind != "panic" && pe.kind != "fatal") || len(g.tries) == 0 {
+				panic(r)
+			}
+			mark := g.tries[len(g.tries)-1]
+			g.tries = g.tries[:len(g.tries)-1]
+			g.frames = g.frames[:mark.depth]
+			if mark.retIdx >= 0 {
+				mark.fr.locals[mark.retIdx] = p.tc.Bool(true)
+			}
+			p.tried = append(p.tried, pe.kind+": "+pe.msg)
+			st = stJump
+		}
+	}()
+	return p.exec(g, fr, in)
 }
 
 func (p *Path) jump(fr *Frame, to *ssa.BasicBlock) {
@@ -942,6 +978,30 @@ func (p *Path) invoke(g *G, fr *Frame, fv *FuncV, args []Value, retIdx int, onDo
 		if m.redirect != nil {
 			fv = &FuncV{fn: m.redirect}
 			p.redirectsUsed[m.name]++
+		} else if m.intrinsic && fv.fn.Name() == "zzTry" {
+			// run the closure; a panic or process exit inside it is caught here
+			f, _ := args[0].(*FuncV)
+			if f == nil || f.fn == nil {
+				p.internal("zzTry needs a function literal")
+			}
+			nf := p.newFrame(f.fn, nil, f.bind, -1)
+			mark := &tryMark{depth: len(g.frames), retIdx: retIdx, fr: fr}
+			nf.onReturn = func(Value) {
+				if n := len(g.tries); n > 0 && g.tries[n-1] == mark {
+					g.tries = g.tries[:n-1]
+				}
+				if retIdx >= 0 {
+					fr.locals[retIdx] = p.tc.Bool(false)
+				}
+			}
+			g.tries = append(g.tries, mark)
+			if onDone != nil {
+				onDone()
+			} else {
+				fr.pc++
+			}
+			g.frames = append(g.frames, nf)
+			return stCall
 		} else if m.intrinsic {
 			res, st := p.intrinsic(g, fr, fv.fn, args)
 			if st == stBlock {
